@@ -26,25 +26,86 @@ inductive Atom
   | null
   deriving DecidableEq, Inhabited
 
-/-- A dictionary whose values are atoms (a direct Resources dictionary, a page-tree node written
-directly into a Kids array). -/
-abbrev Flat := List (String × Atom)
-
-/-- Array elements: an atom or a direct dictionary of atoms. -/
-inductive Elem
-  | atom (a : Atom)
-  | dict (kvs : Flat)
-  deriving DecidableEq, Inhabited
-
-/-- Values of dictionary entries: an atom, an array, a dictionary of atoms. -/
+/-- Values: an atom, an array of values, a dictionary of values — nested to any depth (a direct
+Page dictionary inside a Kids array with a direct MediaBox array and a direct Resources dictionary
+inside it, …). -/
 inductive Val
   | atom (a : Atom)
-  | arr (xs : List Elem)
-  | dict (kvs : Flat)
-  deriving DecidableEq, Inhabited
+  | arr (xs : List Val)
+  | dict (kvs : List (String × Val))
+  deriving Inhabited
 
-/-- A dictionary object (page-tree node, indirect Resources, catalog). -/
+/-- Array elements are values. -/
+abbrev Elem := Val
+
+/-- A dictionary (page-tree node, Resources, catalog). -/
 abbrev Dict := List (String × Val)
+
+/-- A dictionary written directly inside another object. -/
+abbrev Flat := Dict
+
+mutual
+  /-- Structural equality test (the nested inductive type has no derived `DecidableEq`). -/
+  def Val.beq : Val → Val → Bool
+    | .atom a, .atom b => a == b
+    | .arr xs, .arr ys => Val.beqList xs ys
+    | .dict xs, .dict ys => Val.beqDict xs ys
+    | _, _ => false
+  def Val.beqList : List Val → List Val → Bool
+    | [], [] => true
+    | x :: xs, y :: ys => Val.beq x y && Val.beqList xs ys
+    | _, _ => false
+  def Val.beqDict : List (String × Val) → List (String × Val) → Bool
+    | [], [] => true
+    | (k, x) :: xs, (k', y) :: ys => k == k' && Val.beq x y && Val.beqDict xs ys
+    | _, _ => false
+end
+
+mutual
+  theorem Val.eq_of_beq : ∀ a b : Val, Val.beq a b = true → a = b
+    | .atom a, .atom b, h => by simp only [Val.beq, beq_iff_eq] at h; rw [h]
+    | .arr xs, .arr ys, h => by simp only [Val.beq] at h; rw [Val.eq_of_beqList xs ys h]
+    | .dict xs, .dict ys, h => by simp only [Val.beq] at h; rw [Val.eq_of_beqDict xs ys h]
+    | .atom _, .arr _, h => by simp [Val.beq] at h
+    | .atom _, .dict _, h => by simp [Val.beq] at h
+    | .arr _, .atom _, h => by simp [Val.beq] at h
+    | .arr _, .dict _, h => by simp [Val.beq] at h
+    | .dict _, .atom _, h => by simp [Val.beq] at h
+    | .dict _, .arr _, h => by simp [Val.beq] at h
+  theorem Val.eq_of_beqList : ∀ xs ys : List Val, Val.beqList xs ys = true → xs = ys
+    | [], [], _ => rfl
+    | x :: xs, y :: ys, h => by
+      simp only [Val.beqList, Bool.and_eq_true] at h
+      rw [Val.eq_of_beq x y h.1, Val.eq_of_beqList xs ys h.2]
+    | [], _ :: _, h => by simp [Val.beqList] at h
+    | _ :: _, [], h => by simp [Val.beqList] at h
+  theorem Val.eq_of_beqDict : ∀ xs ys : List (String × Val), Val.beqDict xs ys = true → xs = ys
+    | [], [], _ => rfl
+    | (k, x) :: xs, (k', y) :: ys, h => by
+      simp only [Val.beqDict, Bool.and_eq_true, beq_iff_eq] at h
+      rw [h.1.1, Val.eq_of_beq x y h.1.2, Val.eq_of_beqDict xs ys h.2]
+    | [], _ :: _, h => by simp [Val.beqDict] at h
+    | _ :: _, [], h => by simp [Val.beqDict] at h
+end
+
+mutual
+  theorem Val.beq_refl : ∀ a : Val, Val.beq a a = true
+    | .atom a => by simp [Val.beq]
+    | .arr xs => by simp only [Val.beq]; exact Val.beqList_refl xs
+    | .dict xs => by simp only [Val.beq]; exact Val.beqDict_refl xs
+  theorem Val.beqList_refl : ∀ xs : List Val, Val.beqList xs xs = true
+    | [] => rfl
+    | x :: xs => by simp only [Val.beqList, Bool.and_eq_true]; exact ⟨Val.beq_refl x, Val.beqList_refl xs⟩
+  theorem Val.beqDict_refl : ∀ xs : List (String × Val), Val.beqDict xs xs = true
+    | [] => rfl
+    | (k, x) :: xs => by
+      simp only [Val.beqDict, Bool.and_eq_true, beq_self_eq_true, true_and]
+      exact ⟨Val.beq_refl x, Val.beqDict_refl xs⟩
+end
+
+instance : DecidableEq Val := fun a b =>
+  if h : Val.beq a b = true then isTrue (Val.eq_of_beq a b h)
+  else isFalse (fun e => h (e ▸ Val.beq_refl a))
 
 /-- An indirect object: a dictionary or a plain value. -/
 inductive Obj
@@ -61,8 +122,8 @@ def Store.get (g : Store) (n : Nat) : Option Obj := g.lookup n
 /-- `dict.get(k)`. -/
 def dget (d : Dict) (k : String) : Option Val := d.lookup k
 
-/-- A dictionary of atoms as a dictionary object. -/
-def liftFlat (kvs : Flat) : Dict := kvs.map (fun ka => (ka.1, Val.atom ka.2))
+/-- A direct dictionary as a dictionary object. -/
+def liftFlat (kvs : Flat) : Dict := kvs
 
 /-- Exceptions that can end the iteration. `fuel` is not a Python exception: it marks an exhausted
 recursion budget of the model (`Props/C04.lean` proves it never appears with the stated fuel). -/
@@ -153,6 +214,7 @@ def nodeOf (g : Store) (kid : Elem) : Except Err (Option Nat × Dict) :=
     else .error .objectNotFound
   | .atom _ => .ok (none, [])
   | .dict kvs => .ok (none, liftFlat kvs)
+  | .arr _ => .ok (none, [])
 
 /-- The `for child in list_value(Kids): yield from depth_first_search(child, props, visited)` loop,
 over an arbitrary visitor of one child. An exception ends the loop. -/
@@ -201,6 +263,7 @@ structure Page where
 def numOf (g : Store) (e : Elem) : Option Rat :=
   match e with
   | .dict _ => none
+  | .arr _ => none
   | .atom a =>
     match resolve g (.atom a) with
     | .val (.atom (.int i)) => some (i : Rat)
@@ -233,25 +296,23 @@ def markerOf (g : Store) (v : Option Val) : Option Int :=
     | some (.atom (.int m)) => some m
     | _ => none
 
-/-- `PDFPage.__init__` as a function of the four inheritable entries of the page dictionary. -/
+/-- `PDFPage.__init__` as a function of the four entries it reads. The defaulting structure of
+`_parse_mediabox` / `_parse_cropbox` (`parse_mediabox`, `parse_cropbox`: which default on a missing
+value and on `PDFValueError`) is regenerated from the source; `parseBox` stands for the parse
+expression `_normalize_rect(parse_rect(resolve1(val) for val in list_value(value)))` inside them. -/
 def mkPage (g : Store) (id : Option Nat) (res mb cb rot : Option Val) : Page :=
-  let mbox : Rect :=
-    match mb with
-    | none => US_LETTER
-    | some v => (parseBox g v).getD US_LETTER
-  let cbox : Rect :=
-    match cb with
-    | none => mbox
-    | some v => (parseBox g v).getD mbox
+  let mbox : Rect := parse_mediabox mb.isNone (mb.bind (parseBox g))
+  let cbox : Rect := parse_cropbox cb.isNone (cb.bind (parseBox g)) mbox
   let r := match rot with
     | none => ROTATE_DEFAULT
     | some v => intValue g v
   ⟨id, norm_rotate r, mbox, cbox, markerOf g res⟩
 
-/-- Constructing a page raises nothing in the model's value space. -/
+/-- `cls(document, objid, tree, label)`: the entries `__init__` reads (their names regenerated from
+the source: `KEY_…`). Constructing a page raises nothing in the model's value space. -/
 def pageOfRaw (g : Store) (p : RawPage) : Except Err Page :=
-  .ok (mkPage g p.id (dget p.attrs "Resources") (dget p.attrs "MediaBox") (dget p.attrs "CropBox")
-    (dget p.attrs "Rotate"))
+  .ok (mkPage g p.id (dget p.attrs KEY_RESOURCES) (dget p.attrs KEY_MEDIABOX) (dget p.attrs KEY_CROPBOX)
+    (dget p.attrs KEY_ROTATE))
 
 /-- Construct the pages one after the other; the first exception ends the iteration. -/
 def finish {α : Type} (mk : α → Except Err Page) : List α → Option Err → List Page × Option Err
@@ -308,6 +369,34 @@ def getPages {α : Type} (sel : List Nat) (maxpages : Nat) (i : Nat) (pages : Li
 
 def getPagesErr (sel : List Nat) (maxpages : Nat) (r : List Page × Option Err) : List Page × Option Err :=
   getPagesS sel maxpages 0 r.1 r.2
+
+/-- Truth value of the `pagenos` argument as Python takes it in `not pagenos`: `None` and an empty
+container are falsy. A container is a list here: duplicates, any order, negative numbers and numbers
+beyond the last page are all possible (`set`, `list`, `range` … differ only in membership). -/
+def pagenosTruthy : Option (List Int) → Bool
+  | none => false
+  | some l => !l.isEmpty
+
+/-- `pageno in pagenos`. -/
+def pagenoIn (pagenos : Option (List Int)) (i : Nat) : Bool :=
+  match pagenos with
+  | none => false
+  | some l => l.contains (i : Int)
+
+/-- `PDFPage.get_pages(fp, pagenos, maxpages)` with its arguments as Python passes them (`pagenos`
+`None` or any container of integers, `maxpages` any integer), over the generator `create_pages`
+(pages and pending exception): `if <select_yield>: yield page; if <select_break>: break`, both tests
+regenerated from the source. `extract_text`, `extract_pages` and `extract_text_to_fp` hand their
+`page_numbers`/`maxpages` to it unchanged (asserted by the generator). -/
+def getPagesPy {α : Type} (pagenos : Option (List Int)) (maxpages : Int) :
+    Nat → List α → Option Err → List α × Option Err
+  | _, [], e => ([], e)
+  | i, p :: ps, e =>
+    let out := if select_yield (pagenosTruthy pagenos) (pagenoIn pagenos i) then [p] else []
+    if select_break maxpages (i : Int) then (out, none)
+    else
+      let r := getPagesPy pagenos maxpages (i + 1) ps e
+      (out ++ r.1, r.2)
 
 /-! ## process_page / begin_page -/
 
